@@ -478,6 +478,11 @@ func (d *driver) await(ch chan struct{}) {
 func (d *driver) step(st drv.Step) {
 	switch drv.Str(st["ev"]) {
 	case "Config":
+	case "SetActive":
+		if l, ok := st["idxs"].([]any); ok {
+			d.cache.UpdateActiveValIndices(toIdx(l))
+			d.tr.Emit(drv.Step{"ev": "SetActive", "n": len(l)})
+		}
 	case "Reorg":
 		e0 := drv.Num(st["e0"])
 		d.bn.mu.Lock()
@@ -557,7 +562,15 @@ func runOne(ctx context.Context, t *testing.T, tr *drv.Tracer, mock beaconmock.M
 		}
 	}
 	d := &driver{t: t, tr: tr, bn: bn, ctx: ctx, reqs: map[int]*request{}}
-	d.cache = eth2wrap.NewDutiesCache(bn, []eth2p0.ValidatorIndex{})
+	// the node's ACTIVE validator set (what an index-less request stands for): the statement is about requests that name their
+	// indices, so nothing an answer says may depend on it - the schedule sets and changes it freely (Config.active, SetActive)
+	active := []eth2p0.ValidatorIndex{}
+	if len(sched) > 0 && drv.Str(sched[0]["ev"]) == "Config" {
+		if l, ok := sched[0]["active"].([]any); ok {
+			active = toIdx(l)
+		}
+	}
+	d.cache = eth2wrap.NewDutiesCache(bn, active)
 	tr.Emit(drv.Step{"ev": "Reset", "sid": sid, "asg": table})
 	for _, st := range sched {
 		d.step(st)
